@@ -216,6 +216,7 @@ type c16GenOpt struct {
 var c16Scalars = []string{"int", "bool", "short", "byte", "long", "float", "double", "string"}
 
 type c16Gen struct {
+	mod     string // the module's own name: its types may be written Mod::Name
 	dep     *c16Module
 	rng     *rand.Rand
 	opt     c16GenOpt
@@ -272,11 +273,15 @@ func (g *c16Gen) ty(depth int, self string) *c16Ty {
 				return &c16Ty{K: "name", Name: g.dep.Name + "::" + names[g.rng.Intn(len(names))]}
 			}
 		}
+		own := ""
+		if g.mod != "" && g.rng.Intn(5) == 0 { // the module's own types may be qualified
+			own = g.mod + "::"
+		}
 		if len(g.enums) > 0 && g.rng.Intn(5) == 0 {
-			return &c16Ty{K: "name", Name: g.enums[g.rng.Intn(len(g.enums))].Name}
+			return &c16Ty{K: "name", Name: own + g.enums[g.rng.Intn(len(g.enums))].Name}
 		}
 		if len(g.structs) > 0 && g.rng.Intn(4) == 0 {
-			return &c16Ty{K: "name", Name: g.structs[g.rng.Intn(len(g.structs))]}
+			return &c16Ty{K: "name", Name: own + g.structs[g.rng.Intn(len(g.structs))]}
 		}
 		return g.scalar()
 	case r < 7:
@@ -420,7 +425,7 @@ func c16GenModule(rng *rand.Rand, name string, opt c16GenOpt, withIface bool) *c
 
 // c16GenModuleDep: a module that may use the structs and enums of dep, included as "<dep.Name>.tars"
 func c16GenModuleDep(rng *rand.Rand, name string, opt c16GenOpt, withIface bool, dep *c16Module) *c16Module {
-	g := &c16Gen{rng: rng, opt: opt, dep: dep, n: opt.IdBase}
+	g := &c16Gen{rng: rng, opt: opt, dep: dep, n: opt.IdBase, mod: name}
 	m := &c16Module{Name: name, Dep: dep}
 	nd := 3 + rng.Intn(5)
 	if opt.Small {
